@@ -943,6 +943,8 @@ def c02(run):
 @check("C23")
 def c23(run):
     run.rec_leg("asm", ["asm", "faults=10"], verdict=["panic", "labels", "extflag", "labelquery", "symtab-rejected", "unknown-event"])
+    run.rp_rec_leg("rp_asm", "MC_AsmRP", "MC_AsmRP4.cfg" if run.tier == "thorough" else "MC_AsmRP3.cfg", "asm", "MC_Asm_ops.ndjson",
+                   verdict=["panic", "labels", "extflag", "labelquery", "symtab-rejected", "unknown-event"], workers=16)
     return run.finish(
         rule="for every generated program whose pass 1 succeeds: every label of the program (definitions, operands, "
              "externals, labels on .end lines, repeated labels on one address) queried in four spellings plus near-miss and "
@@ -957,6 +959,8 @@ def c23(run):
 def c24(run):
     run.mc_leg("mc_asm", "MC_Asm", "MC_Asm5.cfg" if run.tier == "thorough" else "MC_Asm3.cfg", workers=16, timeout=3000)
     run.rec_leg("asm", ["asm", "faults=10"], verdict=["panic", "lines", "linequery", "lines-not-injective", "unknown-event"])
+    run.rp_rec_leg("rp_asm", "MC_AsmRP", "MC_AsmRP4.cfg" if run.tier == "thorough" else "MC_AsmRP3.cfg", "asm", "MC_Asm_ops.ndjson",
+                   verdict=["panic", "lines", "linequery", "lines-not-injective", "unknown-event"], workers=16)
     run.rec_leg("link", ["link", "alldbg=1"], verdict=["panic", "dbg-lines", "unknown-event"])
     return run.finish(
         rule="generated programs assembled with debug symbols (statements on varied lines, label-only lines, comments, "
@@ -998,6 +1002,8 @@ def c21(run):
     run.mc_leg("mc_asm", "MC_Asm", "MC_Asm5.cfg" if run.tier == "thorough" else "MC_Asm3.cfg", workers=16, timeout=3000)
     run.mc_leg("mc_link", "MC_Link", "MC_Link.cfg", workers=16)
     run.rec_leg("asm", ["asm", "faults=10"], verdict=["panic", "rel", "symkept", "objsym", "unknown-event"])
+    run.rp_rec_leg("rp_asm", "MC_AsmRP", "MC_AsmRP4.cfg" if run.tier == "thorough" else "MC_AsmRP3.cfg", "asm", "MC_Asm_ops.ndjson",
+                   verdict=["panic", "rel", "symkept", "objsym", "unknown-event"], workers=16)
     run.rec_leg("link", ["link"], verdict=["panic", "unresolved-load", "resolved-word", "symkept", "set-image", "set-rel", "unknown-event"])
     return run.finish(
         rule="generated programs with .external declared before, inside and after the blocks that use it, assembled with and "
@@ -1093,6 +1099,8 @@ def c19(run):
 def c26(run):
     run.mc_leg("mc_asm", "MC_Asm", "MC_Asm5.cfg" if run.tier == "thorough" else "MC_Asm3.cfg", workers=16, timeout=3000)
     run.rec_leg("asm", ["asm", "faults=85"], verdict=["panic", "errspan", "errlabel", "unknown-event"])
+    run.rp_rec_leg("rp_asm", "MC_AsmRP", "MC_AsmRP4.cfg" if run.tier == "thorough" else "MC_AsmRP3.cfg", "asm", "MC_Asm_ops.ndjson",
+                   verdict=["panic", "errspan", "errlabel", "unknown-event"], workers=16)
     run.rec_leg("link", ["link", "conflicts=1"], verdict=["panic", "link-errspan", "unknown-event"])
     return run.finish(
         rule="every failing assembly of the fault-injected programs of C02 and every failing link of the sets of C20: span(), "
